@@ -30,6 +30,9 @@ CHECKS = {
  "C06": ("exploration", "A", "deterministic simulation: real binary vs executable replica-counting model, plus metamorphic root-respelling runs",
          "Seeded link structures x flag combinations x root spellings; report must equal the documented replica model and be identical under respelling of the roots.",
          "reference model written from the documentation; plain names only", "4/C06"),
+ "C07": ("exploration", "A", "deterministic simulation: seam-level read-only monitor on the scanned roots (fclones and its transform children) plus full inventories incl. directory mtimes",
+         "Seeded dedicated runs over every transform I/O mode x read/ignore/fail/missing programs, --cache, -o FILE, all formats, and all 5 dedupe operations with --dry-run; oracle: no mutating libc call under a root, identical inventory, empty TMPDIR, cache under XDG_CACHE_HOME.",
+         "atime not compared; the documented exception (program writing $IN under --no-copy) judged on fclones' own calls only", "4/C07"),
 }
 NOT_APPLICABLE = {
  "C16": "pure function of (glob pattern, string): no schedule, clock, fault, stream or history for a simulator to control; needs bounded-exhaustive input enumeration against a reference matcher, which is a different technique (DESIGN section 5)",
